@@ -49,6 +49,9 @@ CFG_TRACE = "INIT Init\nNEXT Next\nCHECK_DEADLOCK FALSE\nINVARIANT Emit\nINVARIA
 # that batch were fine and no slower (the runs are dominated by reading the batch).  A run that still hangs
 # becomes a machinery failure after TLC_TIMEOUT instead of blocking for tlc.py's default hour.
 TLC_WORKERS = 1
+# the long-horizon family folds recursive operators (RSumTo, TruncSeq, DetTraj) over 150-step roll-outs: give the
+# JVM threads a deeper stack (run_tlc applies `env` after it has cleared an inherited JAVA_TOOL_OPTIONS)
+TLC_JVM = {"JAVA_TOOL_OPTIONS": "-Xss64m"}
 TLC_TIMEOUT = {"quick": 420, "thorough": 1500}
 
 # DESIGN 5.1: direct algebraic results (means of <= a few hundred returns of <= 8 small rewards, one
@@ -156,6 +159,11 @@ def oracle_ok(m, cap):
         return False
     per = m["GD"] * (1 if inst_is_det(m) else m["PD"] * m["QD"])
     return per ** max(cap, 1) * 3 * max(cap, 1) * 8 < 2 ** 28
+
+
+def fits(m, n):
+    """mirror of Fits in the spec: discounted returns of n steps fit TLC's integers"""
+    return m["GN"] == m["GD"] or n <= (20 if m["GD"] <= 2 else 10 if m["GD"] <= 4 else 6)
 
 
 def listed_of(m, explicit):
@@ -940,7 +948,7 @@ class Pipeline:
             return
         batch = {"insts": [inst_record(m) for m in self.insts], "cases": [], "traces": self.traces}
         res = run_tlc(ctx.workdir / label, MODULE, CFG_TRACE, files={"batch.json": batch},
-                      env={"BATCH_FILE": "batch.json", "MODE": "trace"}, coverage=(ctx.tier == "thorough"),
+                      env={"BATCH_FILE": "batch.json", "MODE": "trace", **TLC_JVM}, coverage=(ctx.tier == "thorough"),
                       workers=TLC_WORKERS, timeout=TLC_TIMEOUT[ctx.tier])
         ctx.add_tlc(res, "trace: recorded roll-outs validated event by event; exact averages / returns computed")
         if res.violated:
@@ -1004,10 +1012,14 @@ class Pipeline:
         out = self.outs[ji].get("out", {})
         # returns of the roll-out's own reward sequence (Policy.calc_returns on SimulationResult.reward)
         if role == "steps" and "returns" in out:
-            exact = [fr(x) for x in v["rets"]]
             mine = py_returns([e["r"] for e in tr["ev"] if e["k"] == "step"] + [0], gen.gamma(m))
-            if exact != mine:
-                raise TLCFailure(f"TLA+ returns {exact} differ from the Fraction recursion {mine}")
+            if v["retsok"]:
+                exact = [fr(x) for x in v["rets"]]
+                if exact != mine:
+                    raise TLCFailure(f"TLA+ returns {exact} differ from the Fraction recursion {mine}")
+            else:       # long discounted roll-out: GD^n does not fit TLC's integers, the Fractions are the reference
+                exact = mine
+                ctx.count("long_discounted_rollouts_returns_judged_by_fractions")
             scale = sum(abs(e["r"]) for e in tr["ev"] if e["k"] == "step")
             if len(out["returns"]) != len(exact) or not all(close(x, e, scale) for x, e in zip(out["returns"], exact)):
                 ctx.violation(f"C14:Policy.calc_returns:returns-differ-from-backward-recursion:rollout-rewards",
@@ -1057,9 +1069,14 @@ class Pipeline:
             tl = dict(iv=None if t["n"] == 0 else fr(t["iv"]), sv={s: fr(x) for s, x in as_map(t["sv"]).items()},
                       cnt=as_map(t["cnt"]),
                       av={s: {a: fr(x) for a, x in as_map(d).items()} for s, d in as_map(t["av"]).items()})
+            if not t["valsok"]:     # values not computed by TLC: counts and key sets only
+                tl = dict(cnt=tl["cnt"], keys={s: set(d) for s, d in tl["av"].items()})
+                mine = dict(cnt=mine["cnt"], keys={s: set(d) for s, d in mine["av"].items()})
             if tl != mine:
                 raise TLCFailure(f"TLA+ averages differ from the Fraction implementation: {tl} vs {mine}")
-        if v["det"] != inst_is_det(m):
+        if v["main"]["valsok"] != all(fits(m, len(ro["rs"])) for ro in tr["rolls"]):
+            raise TLCFailure("TLA+ Fits differs from the python predicate")
+        if v["det"] != (inst_is_det(m) and fits(m, tr["cap"])):
             raise TLCFailure("TLA+ IsDet differs from the python predicate")
         if not v["detagree"] and not rollouts_rejected:
             raise TLCFailure(f"valid roll-outs of a deterministic instance do not average to the oracle: {v}")
@@ -1083,9 +1100,14 @@ class Pipeline:
             ctx.skip("evaluation that made no roll-outs")
             return
         scale = float(tr["cap"] * 3)
-        bad = self.compare_eval(out, v["main"], n, scale)
+        vm, va = v["main"], v["alt"]
+        if not vm["valsok"]:
+            # long discounted roll-outs: TLC's visit counts / key sets are exact, the value means come from Fractions
+            vm, va = self.with_fraction_values(m, tr, vm, 1), self.with_fraction_values(m, tr, va, 0)
+            ctx.count("long_discounted_evaluations_values_judged_by_fractions")
+        bad = self.compare_eval(out, vm, n, scale)
         if bad:
-            alt = self.compare_eval(out, v["alt"], n, scale)
+            alt = self.compare_eval(out, va, n, scale)
             if not alt:
                 self.flag("evaluate_on-does-not-count-the-final-record-as-a-visit", ji)
             else:
@@ -1112,6 +1134,13 @@ class Pipeline:
             ctx.count("eval_deterministic_equal_truncated_oracle")
         ctx.validated += 1
         ctx.nontrivial(("eval", tr["iid"], job["n"], job["cap"]))
+
+    @staticmethod
+    def with_fraction_values(m, tr, t, final):
+        mine = py_eval_tables(m, tr["rolls"], final)
+        enc = lambda x: [x.numerator, x.denominator]            # noqa: E731
+        return dict(t, iv=enc(mine["iv"]), sv={s: enc(x) for s, x in mine["sv"].items()},
+                    av={s: {a: enc(x) for a, x in d.items()} for s, d in mine["av"].items()})
 
     @staticmethod
     def compare_eval(out, t, n, scale):
@@ -1214,7 +1243,7 @@ def mc_cases(rng, tier):
 def run_mc(ctx, insts, cases):
     batch = {"insts": [inst_record(m) for m in insts], "cases": cases, "traces": []}
     res = run_tlc(ctx.workdir / "mc", MODULE, CFG_MC, files={"batch.json": batch},
-                  env={"BATCH_FILE": "batch.json", "MODE": "mc"}, coverage=(ctx.tier == "thorough"),
+                  env={"BATCH_FILE": "batch.json", "MODE": "mc", **TLC_JVM}, coverage=(ctx.tier == "thorough"),
                   workers=TLC_WORKERS, timeout=TLC_TIMEOUT[ctx.tier])
     ctx.add_tlc(res, f"mc: every roll-out of {len(cases)} (instance, policy, cap, start) cases over {len(insts)} "
                      f"instances; " + ", ".join(MC_INVS))
@@ -1360,6 +1389,55 @@ def add_random_jobs(pipe, rng, tier, base_iid):
                     pipe.execute(dict(kind="eval", iid=iid, rep=rep, n=n, cap=cap, seed=rng.randrange(10 ** 6)))
 
 
+def make_long_inst(rng, det, slow):
+    """small cycling (no absorbing state) or slowly absorbing MDP for the long-horizon family"""
+    while True:
+        m = make_mdp_inst(rng, small=True, det=det)
+        nab = sum(m["abs"])
+        if slow != (nab > 0):
+            continue
+        if any(m["abs"][s] for s in range(m["N"]) if m["p0"][s] > 0):
+            continue
+        if slow:
+            # absorption must be possible but unlikely per step: no sure entry into an absorbing state
+            if det or any(m["W"][s][a] > 0 and m["P"][s][a][u] * 2 > m["PD"]
+                          for s in range(m["N"]) if not m["abs"][s] for a in range(m["K"])
+                          for u in range(m["N"]) if m["abs"][u]):
+                continue
+        return m
+
+
+def add_long_jobs(pipe, rng, tier):
+    """long-horizon family: caps far beyond any 'effective horizon' of the discount; every (inner) roll-out must
+    run to the first absorbing state or to the cap, and the reported tables are the averages of those roll-outs"""
+    quick = tier == "quick"
+    plan = [(True, False), (False, False), (False, True), (False, False)] * (2 if quick else 6)
+    gammas = [(1, 4), (1, 2), (1, 2), (1, 1), (1, 1), (1, 4), (1, 2), (1, 2)]     # deterministic cases: 1/4 and 1
+    caps = [40, 80, 150]
+    for i, (det, slow) in enumerate(plan):
+        m = make_long_inst(rng, det, slow)
+        m["GN"], m["GD"] = gammas[i % len(gammas)]
+        pipe.insts.append(m)
+        iid = len(pipe.insts)
+        rep = rand_rep(rng, m)
+        cap = caps[i % len(caps)]
+        pipe.execute(dict(kind="roll", iid=iid, rep=rep, cap=cap, start=0, ag0=[], seed=rng.randrange(10 ** 6), gen="Random"))
+        pipe.execute(dict(kind="eval", iid=iid, rep=rep, n=1 + i % 2, cap=cap, seed=rng.randrange(10 ** 6)))
+        pipe.ctx.count("long_horizon_cases", 2)
+    # POMDP roll-outs with a functional controller (vertex agent states stay small over long horizons)
+    k = 0
+    while k < (2 if quick else 6):
+        m = make_pomdp_inst(rng, "ctrl", small=True)
+        if m["sub"] != "fn" or sum(m["abs"]) > 0:
+            continue
+        m["GN"], m["GD"] = gammas[k % len(gammas)]
+        pipe.insts.append(m)
+        pipe.execute(dict(kind="roll", iid=len(pipe.insts), rep=rand_rep(rng, m), cap=caps[k % len(caps)], start=0, ag0=[],
+                          seed=rng.randrange(10 ** 6), gen="Random"))
+        pipe.ctx.count("long_horizon_cases")
+        k += 1
+
+
 def add_return_jobs(pipe, rng, tier):
     n = 100 if tier == "quick" else 1000
     for i in range(n):
@@ -1380,8 +1458,7 @@ def run(ctx):
                 "n_simulations, cap); a return computation when the reward sequence has >= 2 entries")
     ctx.assumptions = [
         "rewards are integers (quarters for calc_returns), probabilities k/PD with PD<=4, discount in {1/4,1/2,3/4,9/10,1} "
-        "(and 0 for calc_returns) given as floats: msdm's documented type; an int discount makes calc_returns raise "
-        "(numpy integer power) and is reported as an observation, not a verdict",
+        "(and 0 for calc_returns) given as floats",
         "evaluate_on with n_simulations = 0 has no averages to report (msdm raises in StateTable.from_dict): out of scope",
         "the action-probability clause is judged against the policy's own action_dist at the recorded state / agent "
         "state; the agent-update clause against the policy's own next_agentstate re-invoked on the recorded arguments; "
@@ -1404,6 +1481,7 @@ def run(ctx):
     add_scripted_jobs(pipe, rng, insts, cases, behs, per_case=12 if quick else 60)
     add_random_jobs(pipe, rng, ctx.tier, len(insts))
     add_return_jobs(pipe, rng, ctx.tier)
+    add_long_jobs(pipe, rng, ctx.tier)
     ctx.count("jobs", len(pipe.jobs))
     ctx.count("traces", len(pipe.traces))
     ctx.extra["python_phase_s"] = round(time.time() - t0, 1)
@@ -1417,15 +1495,6 @@ def run(ctx):
     for ji in (0, len(pipe.jobs) // 2, len(pipe.jobs) - 1):
         job = pipe.jobs[ji]
         ctx.sample({k: v for k, v in job.items() if k not in ("expect",)})
-    observe_int_discount(ctx)
-
-
-def observe_int_discount(ctx):
-    try:
-        Policy.calc_returns([1, 2, 3], 1)
-        ctx.count("calc_returns_accepts_int_discount")
-    except Exception as e:                                      # noqa: BLE001
-        ctx.count(f"observation:calc_returns_int_discount_raises_{type(e).__name__}")
 
 
 def replay(ctx, case):
